@@ -73,11 +73,12 @@ def handleDict (d : String) (k : String) : String :=
     s!"ok {showDRes (dictParse g f root keyLen)} {showDRes (dictCalls g f root keyLen)} {treeSize g f root}"
   | _, _ => "bad-op"
 
-/-- field syntax: optional `cN?` then `fK` | `FK` (flags field) | `b1` | `b0` | `vS` | `vx` | `sS` | `sx` -/
+/-- field syntax: optional `cN?` then `fK` | `FK` (flags field, signed) | `UK` (flags field, unsigned) | `b1` | `b0` | `vS` | `vx` | `sS` | `sx` -/
 def parseTy (s : String) : Option Tl.Ty :=
   match s.toList with
-  | 'f' :: r => (String.ofList r).toNat?.map (fun k => .fixed k false)
-  | 'F' :: r => (String.ofList r).toNat?.map (fun k => .fixed k true)
+  | 'f' :: r => (String.ofList r).toNat?.map (fun k => .fixed k 0)
+  | 'F' :: r => (String.ofList r).toNat?.map (fun k => .fixed k 1)
+  | 'U' :: r => (String.ofList r).toNat?.map (fun k => .fixed k 2)
   | ['b', '1'] => some (.bytes true)
   | ['b', '0'] => some (.bytes false)
   | ['v', 'x'] => some (.vec none)
